@@ -248,7 +248,7 @@ def jobs(tier):
     for kind in ("tpdo", "rpdo"):
         for pdo_no in ((1, 512) if q else (1, 2, 4, 5, 512)):
             for k in ((0, 1, 3) if q else range(0, 9)):
-                for subs in ((1, 2, 3, 5, 6), (1, 2)) + (() if q else ((1, 2, 3), (1, 2, 5, 6))):
+                for subs in ((1, 2, 3, 5, 6), (1, 2), (1, 2, 5, 6)) + (() if q else ((1, 2, 3), (1, 2, 3, 6), (1, 2, 6))):
                     for start in ("blank", "enabled-other"):
                         for custom in ((1,) if k else (0,)):
                             out.append(dict(func="save_read", params=dict(kind=kind, pdo_no=pdo_no, k=k, subs=list(subs),
@@ -271,7 +271,7 @@ META = dict(
     level_note="SDO framing is C01's business: upload/download are replaced on the node's SdoClient instance. Bit 29 of "
                "the COB-ID word (frame format) is not modelled; the library ignores it.",
     bounds=dict(quick="RPDO and TPDO, PDO numbers 1 and 512, k in {0,1,3} mapped objects, optional sub-entries all present "
-                      "/ only 1-2, device blank or enabled with a different mapping; dictionary-sourced read (DCF value / "
+                      "/ only 1-2 / 1,2,5,6, device blank or enabled with a different mapping; dictionary-sourced read (DCF value / "
                       "default); predefined COB-IDs for PDO 1..5",
                 thorough="PDO numbers 1,2,4,5,512, k = 0..8, four optional-sub-entry variants"),
     outside_bounds=["devices with a fixed (read-only) mapping count (the library's workaround path)", "curtis_hack",
